@@ -75,11 +75,12 @@ structure Inode where
   /-- chunks appended since the last fsync, oldest first -/
   pending : List Bytes := []
 
-abbrev Dir := List (String × Nat)
+/-- a directory: name ↦ inode number -/
+abbrev Dir := String → Option Nat
 
-def Dir.lookup (d : Dir) (n : String) : Option Nat := (d.find? (·.1 = n)).map (·.2)
-def Dir.remove (d : Dir) (n : String) : Dir := d.filter (·.1 ≠ n)
-def Dir.set (d : Dir) (n : String) (i : Nat) : Dir := (n, i) :: d.remove n
+def Dir.lookup (d : Dir) (n : String) : Option Nat := d n
+def Dir.remove (d : Dir) (n : String) : Dir := fun m => if m = n then none else d m
+def Dir.set (d : Dir) (n : String) (i : Nat) : Dir := fun m => if m = n then some i else d m
 
 inductive DirOp where
   | link (n : String) (i : Nat)
